@@ -22,4 +22,5 @@ let table : (string * (val0 -> val0)) list = [
   "enum_c11", enum_c11;
   "chk_c15", chk_c15;
   "chk_c15_race", chk_c15_race;
+  "chk_c05", chk_c05;
 ]
